@@ -5,7 +5,7 @@ cd /verif
 export VERIF_EVIDENCE_DIR=/verif/.cache/seed-evidence; mkdir -p $VERIF_EVIDENCE_DIR   # never overwrite the evidence of the unchanged tree
 ids=${@:-$(ls seeded)}
 for d in $ids; do
-  id=${d%-*}; id=${id%b}
+  id=${d%-*}; id=${id%[bc]}
   p=seeded/$d/patch.diff
   [ -f seeded/$d/patch_on_current.diff ] && p=seeded/$d/patch_on_current.diff
   git -C /repo diff --quiet || { echo "/repo dirty"; exit 2; }
